@@ -1,9 +1,20 @@
 //! C09: cursor stays inside the visible screen; fixed-grid emulations keep their 40x24 page
+//!
+//! Phases as in c01.rs: seeded / exhaustive streams compared with the model and checked by the oracle (with the
+//! invariant-triggered failing-input search), the exhaustive probe family (position x own-alphabet prefix x every
+//! probe suffix, oracle only), and `--replay @search:<file>` (probe search from correspondence mismatches).
+use crate::probe::*;
 use crate::term::*;
 use crate::util::*;
 
 pub fn worker(inp: &str, out: &std::path::Path) {
-    worker_loop(inp, out, |line, emit| run_case(line, 2000, emit));
+    worker_loop(inp, out, |line, emit| {
+        if line.starts_with("probe ") {
+            probe_group(line, emit)
+        } else {
+            run_case_ex(line, 2000, !no_probe(), emit)
+        }
+    });
 }
 
 /// the ~70-token alphabet of the quantifier for exhaustive short sequences
@@ -54,7 +65,19 @@ fn sizes(rng: &mut Rng) -> (i32, i32) {
 pub fn run(run: &mut Run, seed: u64, thorough: bool, replay: Option<&str>, corpus: &[String]) {
     let dir = std::path::PathBuf::from(std::env::var("VERIF_WORK").unwrap_or_else(|_| "work/C09".to_string()));
     std::fs::create_dir_all(&dir).unwrap();
+    if let Some(path) = replay.and_then(|r| r.strip_prefix("@search:")) {
+        // failing-input search from correspondence mismatches
+        let groups = search_groups(path, 20);
+        run.extra.push(("search_prefixes".into(), groups.len().to_string()));
+        for lines in run_probe_groups("c09", &dir, &groups, jobs(), 15) {
+            let (_, f) = report_probe_lines(run, &lines, c09_verdict);
+            run.evaluations += f;
+            run.count("search-group");
+        }
+        return;
+    }
     let mut cases: Vec<String> = Vec::new();
+    let mut groups: Vec<String> = Vec::new();
     if let Some(r) = replay {
         cases.push(r.replace('_', " "));
     } else {
@@ -109,6 +132,13 @@ pub fn run(run: &mut Run, seed: u64, thorough: bool, replay: Option<&str>, corpu
             exhaustive(emu, 7, 4, &[], &alpha, depth, &mut cases);
             exhaustive(emu, 7, 4, &[lf(emu)], &alpha, depth, &mut cases);
         }
+        // every control of every emulation's own alphabet in the four corners of the screen, with and without
+        // scrollback: as ordinary cases (compared with the model) and as probe groups (followed by every probe suffix)
+        let (pc, pg) = if no_probe() { (vec![], vec![]) } else { probe_plan(thorough) };
+        run.extra.push(("corner_cases".into(), pc.len().to_string()));
+        run.extra.push(("probe_groups".into(), pg.len().to_string()));
+        cases.extend(pc);
+        groups = pg;
     }
     let results = run_in_workers("c09", &dir, &cases, 20);
     for (case, res) in cases.iter().zip(results.iter()) {
@@ -141,16 +171,36 @@ pub fn run(run: &mut Run, seed: u64, thorough: bool, replay: Option<&str>, corpu
                         Some(&"G") => {
                             run.oracle_fail(&format!("{}:grid:{}", fam, parts[2]), &short, &format!("fixed 40x24 page changed size or grew a scrollback at char {}", parts[1]));
                         }
+                        Some(&"Z") => {
+                            run.oracle_fail(&format!("{}:size:{}", fam, parts[2]), &short, &format!("terminal size became {}x{} (opened / last resized to {}x{}) without a resize request, at char {}", parts[3], parts[4], parts[5], parts[6], parts[1]));
+                        }
                         Some(&"P") => run.count("panic(C01)"),
                         Some(&"S") => {
                             run.evaluations += parts[1].parse::<u64>().unwrap_or(0);
                             run.nontrivial(fnv(case.bytes().map(|b| b as u64)));
+                        }
+                        Some(&"Q") => {
+                            let (_, f) = report_probe_lines(run, std::slice::from_ref(l), c09_verdict);
+                            run.evaluations += f;
                         }
                         _ => {}
                     }
                 }
             }
         }
+    }
+    // the exhaustive probe family (oracle only)
+    if !groups.is_empty() {
+        let (mut runs, mut fed) = (0u64, 0u64);
+        for (g, lines) in groups.iter().zip(run_probe_groups("c09", &dir, &groups, jobs(), 15).iter()) {
+            let (r, f) = report_probe_lines(run, lines, c09_verdict);
+            runs += r;
+            fed += f;
+            run.count(&format!("probe-emu:{}", g.split_whitespace().nth(1).unwrap_or("?")));
+        }
+        run.evaluations += fed;
+        run.extra.push(("probe_runs".into(), runs.to_string()));
+        run.extra.push(("probe_chars".into(), fed.to_string()));
     }
     if run.samples.is_empty() {
         for c in cases.iter().take(3) {
